@@ -260,7 +260,7 @@ STRFTIME_TRANSLATE_INFO = {
     "%m": ["month_of_year"],
     "%M": ["minute_of_hour"],
     "%s": (
-        r"(?P<seconds_since_unix_epoch>[0-9]+[,.]?[0-9]*)",
+        r"(?P<seconds_since_unix_epoch>-?[0-9]+[,.]?[0-9]*)",
         "%(seconds_since_unix_epoch)s", "seconds_since_unix_epoch"),
     "%S": ["second_of_minute"],
     "%X": ["hour_of_day", ":", "minute_of_hour", ":", "second_of_minute"],
